@@ -2,8 +2,7 @@
    tasks, close(), failures of env.write / env.apply, conflicts, queue overflow) and its preservation
    by committer steps, part 1: thread-local facts, mutex, permits. *)
 From Coq Require Import List Arith Bool Lia.
-From SKV Require Import Conc.Pipeline Conc.PipelineExplore Conc.PipelineSpec Conc.PipelineLiveCore Conc.PipelineLiveCore2
-  Conc.PipelineLiveCore3 Conc.PipelineLiveCore4.
+From SKV Require Import Conc.Pipeline Conc.PipelineExplore Conc.PipelineSpec Conc.PipelineLiveBase.
 Import ListNotations.
 
 (* before `mark applied` *)
@@ -37,7 +36,9 @@ Definition BGI (g : bgstate) : Prop :=
   (fcnt_pc (g_fpc g) = true -> 0 < g_fcount g) /\
   (xnotified (g_xpc g) = true ->
      (g_fpc g = FExit \/ g_fpermit g = true \/ g_fpc g = FWoken) /\
-     (g_lpc g = LExit \/ g_lpermit g = true \/ g_lpc g = LWoken)).
+     (g_lpc g = LExit \/ g_lpermit g = true \/ g_lpc g = LWoken)) /\
+  (g_ffailed g = true -> g_stall_sd g = true) /\
+  (g_fpc g = FRenotified -> g_fpermit g = true).
 
 (* thread-local facts; stable under growth of qtail, qhead, the log and the epoch *)
 Definition gtinv (s : plstate) (t : thr) : Prop :=
@@ -46,8 +47,7 @@ Definition gtinv (s : plstate) (t : thr) : Prop :=
   | CStallReg ep | CStallCounted ep _ | CStallBlocked ep => ep <= g_epoch (bg s)
   | CEnqStored => my_lt t (length (qlog s))
   | CEnqDone | CEnqueued | CWalFailed | CFailDoneLocked | CMarkedLocked | CArenaFull | CRotated | CWokeMem
-  | CApplied | CApplyFailed | CFailDone | CPubTop | CDeqNone | CPubExit | CRetErr => my_lt t (qhead s)
-  | CWaitDone => my_lt t (qhead s) /\ t_err t = false
+  | CApplied | CApplyFailed | CFailDone | CPubTop | CDeqNone | CPubExit | CWaitDone => my_lt t (qhead s)
   | CApplying _ => my_lt t (qhead s) /\ t_i t <= t_cnt t
   | CPubHold q => my_lt t (qhead s) /\ q < qtail s
   | CDeqLoaded h t0 => my_lt t (qhead s) /\ t0 < h /\ h <= qhead s /\ t0 <= qtail s
@@ -71,12 +71,6 @@ Qed.
 
 Definition MX (s : plstate) : Prop := forall j tj, thr_at s j tj -> locked_pc (t_pc tj) = true -> mutex s = Some j.
 Definition PM (c : cfg) (s : plstate) : Prop := avail s + held (thrs s) = c_permits c.
-Definition RESG (s : plstate) : Prop := forall p b, nth_error (qlog s) p = Some b -> b_res b = Some true -> p < qtail s.
-Definition UNIQ (s : plstate) : Prop :=
-  (forall j tj p, thr_at s j tj -> t_my tj = Some p -> p < length (qlog s)) /\
-  (forall j1 j2 t1 t2 p, thr_at s j1 t1 -> thr_at s j2 t2 -> t_my t1 = Some p -> t_my t2 = Some p -> j1 = j2).
-Definition ERR (s : plstate) : Prop :=
-  forall j tj p b, thr_at s j tj -> t_my tj = Some p -> nth_error (qlog s) p = Some b -> b_res b = Some false -> t_err tj = true.
 Definition OWNG (s : plstate) : Prop :=
   forall p b, qtail s <= p -> nth_error (qlog s) p = Some b -> b_applied b = true \/ existsb (ownsP p) (thrs s) = true.
 Definition DEQG (s : plstate) : Prop :=
@@ -88,6 +82,14 @@ Definition STALL (c : cfg) (s : plstate) : Prop :=
   forall j tj ep, thr_at s j tj -> (t_pc tj = CStallCounted ep true \/ t_pc tj = CStallBlocked ep) ->
     ep = g_epoch (bg s) -> g_stall_sd (bg s) = false /\ (c_memlimit c <= g_imm (bg s) \/ g_fpc (bg s) = FFlushed).
 
+(* the flush task sleeps without a permit and its round did not fail: every waiting immutable memtable belongs
+   to a committer that has rotated and not yet done its wake-up *)
+Fixpoint nrot (l : list thr) : nat :=
+  match l with [] => 0 | t :: r => (match t_pc t with CRotated => 1 | _ => 0 end) + nrot r end.
+Definition ACC (s : plstate) : Prop :=
+  (g_fpc (bg s) = FInit \/ g_fpc (bg s) = FWait) -> g_fpermit (bg s) = false -> g_ffailed (bg s) = false ->
+  g_imm (bg s) <= nrot (thrs s).
+
 Record GInv (c : cfg) (s : plstate) : Prop := {
   g_bgi : BGI (bg s);
   g_slots : length (slotv s) = c_slots c /\ 0 < c_slots c;
@@ -97,9 +99,10 @@ Record GInv (c : cfg) (s : plstate) : Prop := {
   g_ls : LS c s;
   g_pm : PM c s;
   g_r1 : R1 c s; g_r2 : R2 c s; g_r3 : R3 c s; g_r4 : R4 s;
-  g_qf : QF s; g_qref : QREF s; g_res : RESG s; g_uniq : UNIQ s; g_err : ERR s;
+  g_qf : QF s; g_qref : QREF s;
   g_own : OWNG s; g_deq : DEQG s; g_help : HELPG s;
   g_stall : STALL c s;
+  g_acc : ACC s;
 }.
 
 (* the labels of the runs considered: no empty batch, the L0 condition never stalls *)
